@@ -35,6 +35,47 @@ def mass_orphans(run, seed, nbytes=720_000):
         return s.trace(extra={'history': desc, 'opts': {'orphans': nbytes // 64}})
 
 
+def damaged_cache(run, graphs, seeds):
+    """a cache entry left half-written by an interrupted run, then clean / delete as the FIRST command afterwards: what is garbage is
+    decided by the snapshots in the repository, whatever the cache holds"""
+    from pathlib import Path
+    import os
+    from .. import harness, repodrv
+    traces = []
+    for g in graphs:
+        for seed in seeds:
+            with harness.scratch() as d:
+                s = repodrv.Session(g, d, seed=seed, cache='__private__')
+                r = s.rng
+                content = repodrv.Content(r, nblocks=6)
+                files = [s.write_file('q%d.bin' % i, content.make() + r.randbytes(150)) for i in range(3)]
+                desc = []
+                for u in s.users:
+                    s.snapshot(u, files[:2] if u == s.users[0] else files[1:])
+                for u in s.users:
+                    s.ls(u)                                    # everybody's cache is warm
+                for u in s.users:
+                    cdir = s.world.users[u].cache
+                    entries = sorted(p for p in Path(cdir).rglob('*') if p.is_file()) if cdir and os.path.isdir(cdir) else []
+                    for p in entries:
+                        b = p.read_bytes()
+                        p.write_bytes(b[:len(b) // 2])         # ... and every entry is cut in half (interrupted write)
+                    s.ctx = 'cache entries truncated by an interrupted write'
+                    rd = s.readable(u)
+                    if rd and r.random() < 0.5:
+                        o = s.delete(u, rd[:1])
+                        desc.append('delete-with-damaged-cache(%s)->%s' % (u, o.etype))
+                    else:
+                        o = s.clean(u)
+                        desc.append('clean-with-damaged-cache(%s)->%s' % (u, o.etype))
+                    s.ctx = None
+                for u in s.users:
+                    s.restore(u)
+                traces.append(s.trace(extra={'history': desc, 'opts': {'cache': 'private, every entry truncated'}}))
+                run.case(('damaged-cache', g, seed))
+    return traces
+
+
 def main(run):
     quick = run.tier == 'quick'
     rc.design(run, ['mixed', 'indep'] if quick else ['plain', 'same', 'shared', 'indep', 'mixed'],
@@ -58,6 +99,7 @@ def main(run):
     # ... and over the REAL B2 adapter: names have versions there (two workers storing one chunk create two), delete must remove the name
     traces += rc.histories(run, ['plain', 'shared', 'mixed'] if quick else rc.ALL_GRAPHS, range(run.seed * 100 + 95, run.seed * 100 + 95 + (2 if quick else 8)),
                            14 if quick else 25, reads=False, p_clean=0.3, p_delete=0.25, flavour='b2', foreign=foreign)
+    traces += damaged_cache(run, ['shared', 'mixed'] if quick else rc.ALL_GRAPHS, range(run.seed * 10 + 4, run.seed * 10 + 4 + (1 if quick else 3)))
     if not quick:
         traces.append(mass_orphans(run, run.seed + 808))
     rc.validate(run, traces, CLAUSES, label='c08.histories')
